@@ -23,7 +23,7 @@ out = {
     "needs_to_manifest": meta.get("needs", ""),
     "origin": f"independent sub-agent, wave {wave}; given only the property text and a scratch worktree",
     "confirmed": {
-        "how": "tools_confirm_mutant.sh in the scratch worktree: patch applies to the clean tree, go build ./... ok, full existing test suite passes with it, demo.sh exits 0 on the clean tree and 1 with the patch",
+        "how": "tools_confirm.sh in the scratch worktree: patch applies to the clean tree, go build ./... ok, full existing test suite passes with it, demo.sh exits 0 on the clean tree and 1 with the patch",
         "demo": "demo.sh <tree>" + (" (uses demo_test.go)" if os.path.exists(os.path.join(src, "demo_test.go")) else ""),
     },
     "checks_run": f"tools_run_mutant.sh patch.diff {prop} (git -C /repo apply; ./check {prop} quick; git -C /repo checkout -- .)",
